@@ -309,6 +309,13 @@ func TestVerifC13(t *testing.T) {
 		}
 		conf.CaseSensitive = false
 	}
+	// (1c) U+E000, a character of the private use area, inside a filter value: a value without '*' is a plain text
+	// and matches only the equal token (known finding: the SeqQL lexer uses U+E000 as its in-band wildcard mark)
+	{
+		ptoks := []string{"a", "a*b", "aXb", "ab", "a\ue000b"}
+		judge(r, c13Case{Kind: "glob-pua", Query: quoteFilter("a\ue000b"), Tokens: ptoks, Ordered: false})
+		judge(r, c13Case{Kind: "glob-pua", Query: quoteFilter("a\ue000b"), Tokens: ptoks, Ordered: true})
+	}
 	r.Sample(c13Case{Kind: "glob", Query: `f:"a*b*"`, Tokens: sortedToks[:8], Ordered: true})
 	// ---- (2) ranges ----
 	ends := []string{"*", `""`, "1", "2", "10", "-1", "1.5", "1e1", "a", "b", "ab", "0"}
